@@ -153,7 +153,7 @@ prop("C06", "Durable and prefix-consistent across crashes", "fault_enumeration",
 
 prop("C07", "Transfer accounting counts every block position once", "exploration", "fsmx",
      "model-based property testing (rapid): run-structured block-report sequences with replays, duplicates and reopen against a reference accumulator; arbitrary triples for monotonicity",
-     [hx("TestC07_Fsmx", 4500, 128000), hx("TestC07_FsmxArbitrary", 3000, 64000), hx("TestC16_Gsx", 2400, 32000), hxr("TestC07_RaceReports", 300, 12000)],
+     [hx("TestC07_Fsmx", 4500, 128000), hx("TestC07_FsmxArbitrary", 3000, 64000), hx("TestC16_Gsx", 2400, 32000), hxr("TestC07_RaceReports", 300, 12000), hx("TestC13_Migrate", 1200, 16000)],
      ["equality with the sum over distinct positions is asserted for run-structured input in a transferring status only (DESIGN 6.4)"],
      "generated report sequences against a reference accumulator; sampled, not exhaustive",
      TRUST)
